@@ -297,6 +297,16 @@ func (x *Exec) frontBuiltin(env *SpecEnv, st *State, name string, args []TV) (TV
 			return TV{VScalar{IntLit(int64(cnt))}, intT}, true
 		}
 		return TV{}, false
+	case "unixmilli":
+		// unixmilli(t): t.UnixMilli() of a time.Time value (the same term the code computes)
+		if len(args) == 1 {
+			if sv, ok := x.force(st, args[0].V).(VStruct); ok && len(sv.F) == 3 {
+				if sc, ok := x.force(st, sv.F[1]).(VScalar); ok && sc.T.Sort == SInt {
+					return TV{VScalar{App(SInt, "div", sc.T, IntLit(1000000))}, types.Typ[types.Int64]}, true
+				}
+			}
+		}
+		return TV{}, false
 	case "dyn":
 		// dyn(i): the dynamic value of an interface value whose dynamic type is known on this path
 		if len(args) == 1 {
